@@ -269,10 +269,60 @@ func checkC12(w *World, r *Report) {
 
 // macroArgsOrigin: "" if unknown; else a description of an accepted origin.
 func macroArgsOrigin(w *World, v ssa.Value, evalM *types.Func, depth int) string {
+	return macroArgsOriginSrc(w, v, evalM, depth, nil)
+}
+
+// macroArgsOriginSrc: srcOK, if set, decides whether the node list whose elements are evaluated
+// is the call's argument list (used when the evaluation loop lives in a helper that receives
+// the list as a parameter).
+func macroArgsOriginSrc(w *World, v ssa.Value, evalM *types.Func, depth int, srcOK func(ssa.Value) bool) string {
 	if depth > 6 {
 		return ""
 	}
 	switch x := v.(type) {
+	case *ssa.Extract:
+		// args, err := ctx.evaluateArguments(n.args): a helper of the package whose slice result is
+		// built by evaluating its node-list parameter in order, handed the call's args
+		c, ok := x.Tuple.(*ssa.Call)
+		if !ok || x.Index != 0 {
+			return ""
+		}
+		h := c.Call.StaticCallee()
+		if h == nil || h.Pkg == nil || h.Pkg.Pkg.Path() != twigPath || len(h.Blocks) == 0 {
+			return ""
+		}
+		okAll, n := true, 0
+		instrsOf(h, func(in ssa.Instruction) {
+			ret, isRet := in.(*ssa.Return)
+			if !isRet || !okAll {
+				return
+			}
+			res := retResults(ret)
+			if len(res) == 0 || isNilConst(res[0]) {
+				return
+			}
+			n++
+			why := macroArgsOriginSrc(w, res[0], evalM, depth+1, func(src ssa.Value) bool {
+				p, isP := unspill(src).(*ssa.Parameter)
+				if !isP {
+					return false
+				}
+				for k, hp := range h.Params {
+					if hp == p && k < len(c.Call.Args) {
+						_, f := originField(c.Call.Args[k], 0)
+						return f == "args"
+					}
+				}
+				return false
+			})
+			if why == "" {
+				okAll = false
+			}
+		})
+		if okAll && n > 0 {
+			return "built by " + h.Name() + ", which evaluates the call's argument expressions args[i] into position i"
+		}
+		return ""
 	case *ssa.Parameter:
 		return "forwards its own args parameter unchanged"
 	case *ssa.FreeVar:
@@ -302,7 +352,7 @@ func macroArgsOrigin(w *World, v ssa.Value, evalM *types.Func, depth int) string
 				for _, ref := range *al.Referrers() {
 					if st, ok := ref.(*ssa.Store); ok && st.Addr == al {
 						n++
-						why := macroArgsOrigin(w, st.Val, evalM, depth+1)
+						why := macroArgsOriginSrc(w, st.Val, evalM, depth+1, srcOK)
 						if why == "" {
 							okAll = false
 						} else if first == "" {
@@ -314,14 +364,14 @@ func macroArgsOrigin(w *World, v ssa.Value, evalM *types.Func, depth int) string
 					res = "captured variable: " + first
 				}
 			} else {
-				res = macroArgsOrigin(w, b, evalM, depth+1)
+				res = macroArgsOriginSrc(w, b, evalM, depth+1, srcOK)
 			}
 		})
 		return res
 	case *ssa.UnOp:
 		if x.Op == token.MUL {
 			if fv, ok := x.X.(*ssa.FreeVar); ok {
-				return macroArgsOrigin(w, fv, evalM, depth+1)
+				return macroArgsOriginSrc(w, fv, evalM, depth+1, srcOK)
 			}
 			if al, ok := x.X.(*ssa.Alloc); ok && al.Referrers() != nil {
 				okAll, n := true, 0
@@ -329,7 +379,7 @@ func macroArgsOrigin(w *World, v ssa.Value, evalM *types.Func, depth int) string
 				for _, ref := range *al.Referrers() {
 					if st, ok := ref.(*ssa.Store); ok && st.Addr == al {
 						n++
-						why := macroArgsOrigin(w, st.Val, evalM, depth+1)
+						why := macroArgsOriginSrc(w, st.Val, evalM, depth+1, srcOK)
 						if why == "" {
 							okAll = false
 						} else if first == "" {
@@ -343,11 +393,11 @@ func macroArgsOrigin(w *World, v ssa.Value, evalM *types.Func, depth int) string
 			}
 		}
 	case *ssa.Slice:
-		return macroArgsOrigin(w, x.X, evalM, depth+1)
+		return macroArgsOriginSrc(w, x.X, evalM, depth+1, srcOK)
 	case *ssa.Phi:
 		var first string
 		for _, e := range x.Edges {
-			why := macroArgsOrigin(w, e, evalM, depth+1)
+			why := macroArgsOriginSrc(w, e, evalM, depth+1, srcOK)
 			if why == "" {
 				return ""
 			}
@@ -405,7 +455,11 @@ func macroArgsOrigin(w *World, v ssa.Value, evalM *types.Func, depth int) string
 				if !ok || sia.Index != ia.Index {
 					return ""
 				}
-				if _, f := originField(sia.X, 0); f != "args" {
+				if srcOK != nil {
+					if !srcOK(sia.X) {
+						return ""
+					}
+				} else if _, f := originField(sia.X, 0); f != "args" {
 					return ""
 				}
 			}
